@@ -580,7 +580,13 @@ def fam_crash_bypass(rnd, n):
         if lvl == "b1" and rnd.random() < 0.6:
             out["b2.s1.a1"] = ["perm"]
         sh = shape(blocks, pg=pg)
-        res.append(scn(sh, "free", out, crash="all", crashmax=40, fn=True, tag="crash-bypass", latmax=100, waitms=5000))
+        extra = {}
+        if i % 2 == 1:
+            # the bypass group FAILS (the scope runs normally) and would pass if it were asked again after the restart
+            a = "%s.bypass.a1" % lvl
+            out[a] = ["perm"]
+            extra = {"out2": dict(out, **{a: ["ok"]}), "fn": False}
+        res.append(scn(sh, "free", out, **dict(dict(crash="all", crashmax=40, fn=True, tag="crash-bypass", latmax=100, waitms=5000), **extra)))
     return res
 
 
